@@ -39,7 +39,25 @@ def cases(tier, rng):
         for polls in (1, 2):
             out.append("z%d sock %s / attach a %s / recvp %d / recvw a %s / recv" % (k, t, scen.PEER[t], polls, W.tok(W.msg(body))))
             k += 1
+    # a connection announcing the identity of a connection that is still registered takes its place: what the new
+    # connection sends must come out (old connection idle / already read / with a message read before the take-over)
+    for t in ("PULL", "SUB", "DEALER", "ROUTER", "REP", "XPUB"):
+        pt = scen.PEER[t]
+
+        def m(tag):
+            return W.tok(W.msg([b"", tag] if t == "REP" else [b"\x01" + tag] if t == "XPUB" else [tag]))
+        rcv = "recv / send 6f6b" if t == "REP" else "recv"
+        for idl in (1, 9, 255):
+            ident = W.tok(b"I" * idl)
+            for pre in ("", "feed a %s / %s / " % (m(b"old1"), rcv)):
+                out.append("y%d sock %s / attach a %s id=%s / %sattach b %s id=%s / feed b %s / %s / feed b %s / %s" %
+                           (k, t, pt, ident, pre, pt, ident, m(b"new1"), rcv, m(b"new2"), rcv))
+                k += 1
     return out
+
+
+def compare_filter(line):
+    return not line.startswith("y")      # the World model assumes distinct identities
 
 
 def model_cases(case_lines):
@@ -182,6 +200,14 @@ def judge(line, obs, orc):
         return "implementation " + str(obs)[:80]
     if line.split()[1] == "fq":
         return fq_judge(line, obs)
+    if line.startswith("y"):
+        got = [t for t in obs.split() if t.startswith("r=")]
+        want = ["6e657731", "6e657732"]
+        tail = got[-2:]
+        if len(tail) != 2 or not all(t.startswith("r=ok:") and t.endswith(w) for t, w in zip(tail, want)):
+            return ("messages sent by a connected peer (a connection that announced the identity of an earlier, still registered "
+                    "connection) were not returned by recv in order: " + " ".join(got)[-160:])
+        return None
     if line.startswith("z"):
         toks = obs.split()
         if "lost-wakeup" in obs or not any(t.startswith("r=ok:") and t.endswith("6c617465") for t in toks):
